@@ -24,10 +24,12 @@ NAMES = ['a', 'b', 'c']
 PROD = [None, 0, 1]
 
 
-def mk_world(L, producers, names):
+def mk_world(L, producers, names, extras=('h1', 'h2', 'src')):
     w = World(L)
+    for x in extras[:1]:
+        w.file(x)
     ids = [w.file(n) for n in names]
-    for x in ('h1', 'h2', 'src'):
+    for x in extras[1:]:
         w.file(x)
     for s in range(2):
         outs = [ids[i] for i in range(len(names)) if producers[i] == s]
@@ -69,7 +71,7 @@ class Attribution:
             recs.append((s, [NAMES[i] for i in range(3) if p1[i] == s], hsh, [d.encode() for d in DEPSETS[ds]]))
         # ---- second manifest: independent producers, reversed numbering
         p2 = [PROD[I.choose('g2_%s' % n, 3)] for n in NAMES]
-        w2 = mk_world(L, list(reversed(p2)), list(reversed(NAMES)))
+        w2 = mk_world(L, list(reversed(p2)), list(reversed(NAMES)), extras=('h2', 'src', 'h1'))
         g2, h2 = w2.graph(), dblib.empty_hashes(L)
         r = I.call_fn(self.open, [M.static_str(b'.n2_db'), Ref(Cell(g2), ()), Ref(Cell(h2), ())])
         if r.variant != 'Ok':
